@@ -588,6 +588,46 @@ theorem loops_obs_eq (T : Bytes) (n : Nat) (hn : n = 20 ∨ n = 32) (strict : Bo
             simp only [h1, h2, obs, Option.some.injEq] at this
             simp [obs, this]
 
+theorem rsLoop_ok_tokens (n : Nat) (strict : Bool) : ∀ (fuel : Nat) (R : Bytes) (r : List TreeEntry),
+    rsParseLoop n strict fuel R = .ok r → ∀ t ∈ modeTokens n fuel R, isCanonical t = true := by
+  intro fuel
+  induction fuel with
+  | zero => intro R r h; simp [rsParseLoop] at h
+  | succ fuel ih =>
+    intro R r h
+    simp only [rsParseLoop, rsStep_frame] at h
+    cases hf : frame n R with
+    | done =>
+      have hR : R = [] := by
+        unfold frame at hf
+        split at hf
+        · rename_i he; exact List.isEmpty_iff.mp he
+        · split at hf
+          · cases hf
+          · split at hf
+            · cases hf
+            · split at hf <;> cases hf
+      subst hR
+      intro t ht
+      simp [modeTokens, findByte] at ht
+    | noSpace => simp [hf] at h
+    | noNul tok => simp [hf] at h
+    | short tok name => simp [hf] at h
+    | entry tok name sha used =>
+      simp only [hf] at h
+      rw [modeTokens_entry fuel hf]
+      cases hrt : rsTok strict tok with
+      | none => simp [hrt] at h
+      | some mode =>
+        simp only [hrt] at h
+        cases hrec : rsParseLoop n strict fuel (R.drop used) with
+        | error e => simp [hrec] at h
+        | ok es =>
+          intro t ht
+          rcases List.mem_cons.mp ht with rfl | ht
+          · exact rsTok_canonical hrt
+          · exact ih _ es hrec t ht
+
 theorem rsLoop_fuel (n : Nat) (strict : Bool) : ∀ (fuel : Nat) (R : Bytes), R.length < fuel →
     rsParseLoop n strict fuel R ≠ .error .fuel := by
   intro fuel
